@@ -316,6 +316,23 @@ def order_hook(world, spec, oi, op, q, rec):
                         _add(rec, "order_violation", "solve_order(%s, %s): both are solver variables of one rand set, but the groups randomised "
                              "in sequence are %s (group of %s: %s, of %s: %s)" % (bn, an, None if order is None else [[getattr(f, "name", "?") for f in g] for g in order],
                                                                                  bn, gb, an, ga), op, oi)
+        # every random field of the rand set gets a randomising target from some group: a field outside all groups would be left to
+        # the solver's default model (its feasible values are never produced).  Observed from the trace: solver variables of
+        # the instance (domain not a single value) that no randomising constraint tried after the swizzle marker mentions, while
+        # fewer than max_swizzle (4) fields were randomised in every group
+        if order is not None:
+            tried = set()
+            for t in inst.trace[sw + 1:]:
+                if t[0] == "assume":
+                    tried |= set(v for v in _term_vars(t[1].z) if v in var2fm)
+            dom = marker[2]
+            for v, fm in var2fm.items():
+                ent = dom.get(id(fm))
+                multi = ent is not None and (len(ent[1]) > 1 or (len(ent[1]) == 1 and ent[1][0][0] != ent[1][0][1]))
+                if multi and id(fm) not in group_of and v not in tried and all(len(g) <= 4 for g in order):
+                    _add(rec, "not_randomised", "field %s is a solver variable of an ordered rand set but belongs to none of the groups randomised in "
+                         "sequence %s: its value is left to the solver's default model" % (
+                             R.vname(rec["fm_path"].get(id(fm), ("?",))), [[getattr(f, "name", "?") for f in g] for g in order]), op, oi)
         last_group = -1
         pending = None
         last_sat = None
